@@ -104,7 +104,7 @@ def gen_sequence(seed, n):
             label, raw, tk, cons = corr_cache.pop()
             steps.append({"cls": "corrupt/" + label.split(" ")[0], "raw": raw})
         elif roll < 0.90:
-            which = r.choice(["many-tags", "long-value", "long-name", "huge-value", "long-d", "many-items", "long-content", "long-multibyte", "long-multibyte"])
+            which = r.choice(["many-tags", "long-value", "long-name", "huge-value", "long-d", "many-items", "long-content", "long-multibyte", "long-multibyte", "near-key-limit", "near-key-limit"])
             if which == "many-tags":
                 tags = [["t", "v%d" % j] for j in range(r.choice([100, 500, 2000]))]
             elif which == "long-value":
@@ -112,6 +112,10 @@ def gen_sequence(seed, n):
             elif which == "long-multibyte":
                 # few characters, many bytes (index keys are limited in BYTES)
                 tags = [[r.choice(["t", "d", "expiration"]), r.choice(["€" * 200, "あ" * 256, "é" * 250, "\U0001f600" * 130, "é" * 128, "あ" * 85 + "x"])]]
+            elif which == "near-key-limit":
+                # byte lengths around what still fits an LMDB key, for short and long indexed tag names
+                n = r.choice([255, 256, 257] + list(range(440, 481, 3)) + [500, 511, 512])
+                tags = [[r.choice(["t", "é", "expiration", "delegation", "d"]), "k" * n]]
             elif which == "long-name":
                 tags = [["n" * 600, "v"]]
             elif which == "huge-value":
